@@ -75,12 +75,15 @@ def run_variant(args):
         err = apply_variant(v, repo, scratch)
         if err:
             return dict(name=v["name"], status="stale", detail=err)
-        cmd = [os.path.join(VERIF, "check"), v["property"], "--repo", scratch, "--no-write"]
+        cmd = [os.path.join(VERIF, "check"), "all" if v["property"] == "ALL" else v["property"], "--repo", scratch, "--no-write"]
         pr = subprocess.run(cmd, capture_output=True, text=True, cwd=VERIF)
         out = pr.stdout + pr.stderr
         rules_hit = sorted({ln.split("rule=")[1].split()[0] for ln in out.splitlines() if ln.strip().startswith("rule=")})
         if v["expect"] == "violation":
             ok = pr.returncode == 1 and (not v.get("rule") or v["rule"] in rules_hit)
+        elif v["expect"] == "no-violation":
+            # behaviour-preserving rewrite the rules need not understand: undecided is acceptable, an alarm is not
+            ok = pr.returncode in (0, 2) and "VIOLATION" not in out
         else:
             ok = pr.returncode == 0 and "VIOLATION" not in out
         return dict(name=v["name"], property=v["property"], expect=v["expect"], rule=v.get("rule"), exit=pr.returncode, rules_hit=rules_hit, ok=ok, wall=round(time.time() - t0, 2), tail=out.strip().splitlines()[-6:] if not ok else [])
@@ -108,6 +111,8 @@ def main():
     vs = load_variants()
     if a.property:
         vs = [v for v in vs if v["property"] == a.property]
+    elif not a.name:
+        pass
     if a.name:
         vs = [v for v in vs if a.name in v["name"]]
     t0 = time.time()
@@ -123,7 +128,7 @@ def main():
             for ln in r["tail"]:
                 print("      " + ln)
     n_b = sum(1 for r in res if r.get("expect") == "violation")
-    n_n = sum(1 for r in res if r.get("expect") == "pass")
+    n_n = sum(1 for r in res if r.get("expect") in ("pass", "no-violation"))
     print(f"selftest: {len(res)} variants ({n_b} breaking, {n_n} neutral), {len(bad)} wrong, {len(stale)} stale, {time.time() - t0:.1f}s")
     if a.json:
         with open(a.json, "w") as fh:
